@@ -69,14 +69,14 @@ inline const std::vector<SDef>& alphabet() {
 }
 
 // ------------------------------------------------------------------------------------------- source kinds
-enum Kind { Lit, ConstPtr, CharPtr, CharArr, StdString, StringView, JsCopied, JsLinkedP, JsDefault, ArdString, Flash, NKINDS };
+enum Kind { Lit, ConstPtr, CharPtr, CharArr, StdString, StringView, JsCopied, JsLinkedP, JsDefault, JsSizedDefault, ArdString, Flash, NKINDS };
 static const char* kKindName[NKINDS] = {"lit",      "constptr",  "charptr",   "chararr",   "stdstring", "stringview",
-                                        "jscopied", "jslinked", "jsdefault", "ardstring", "flash"};
-inline bool byAddress(Kind k) { return k == Lit || k == ConstPtr || k == JsLinkedP || k == JsDefault; }
+                                        "jscopied", "jslinked", "jsdefault", "jssizeddefault", "ardstring", "flash"};
+inline bool byAddress(Kind k) { return k == Lit || k == ConstPtr || k == JsLinkedP || k == JsDefault || k == JsSizedDefault; }
 inline bool sized(Kind k) { return k == StdString || k == StringView || k == JsCopied || k == ArdString; }
 inline bool canExpress(Kind k, const SDef& s) { return !s.hasNul || sized(k); }
 static const Kind kCopiedKinds[] = {CharPtr, CharArr, StdString, StringView, JsCopied, ArdString, Flash};
-static const Kind kLinkedKinds[] = {Lit, ConstPtr, JsLinkedP, JsDefault};
+static const Kind kLinkedKinds[] = {Lit, ConstPtr, JsLinkedP, JsDefault, JsSizedDefault};
 
 template <class F, class X>
 __attribute__((noinline)) void callWith(F& f, X& x) {  // one out-of-line body per (call site, argument type)
@@ -205,6 +205,7 @@ struct Source {
       case JsCopied: { JsonString js(buf, n, JsonString::Copied); callWith(f, js); break; }
       case JsLinkedP: { JsonString js(buf, JsonString::Linked); callWith(f, js); break; }
       case JsDefault: { JsonString js(buf); callWith(f, js); break; }
+      case JsSizedDefault: { JsonString js(buf, n); callWith(f, js); break; }  // 2-argument form: ownership defaults to Linked; size == strlen
       case ArdString: { const ::String& r = *as; callWith(f, r); break; }
       case Flash: { const __FlashStringHelper* fp = reinterpret_cast<const __FlashStringHelper*>(convertPtrToFlash(buf)); callWith(f, fp); break; }
       default: abort();
@@ -813,8 +814,9 @@ struct UseDef {
   bool withinLimitOnly;  // not defined for the over-long string
   bool nulFreeOnly;
 };
-// The translation unit can be built in parts (-DHXS_PART=1..3) so that the job builds run in parallel:
-// 1 = value and key uses, 2 = lookup uses, 3 = comparison, copy paths and the sharing grid; 0 = everything.
+// The translation unit can be built in parts (-DHXS_PART=1..6) so that the job builds run in parallel:
+// 1 = value uses, 2 = key uses, 3 = index lookups, 4 = containsKey / remove lookups, 5 = comparison operands,
+// 6 = copy paths and the sharing grid; 0 = everything.
 #ifndef HXS_PART
 #define HXS_PART 0
 #endif
@@ -828,6 +830,8 @@ static const UseDef kUses[] = {
     {"v.memberSet", u_memberSet, false, false},     {"v.docElement", u_docElement, false, false},
     {"v.elementSet", u_elementSet, false, false},   {"v.replaceCopied", u_replaceCopied, false, false},
     {"v.replaceSame", u_replaceSame, false, false}, {"v.neighbours", u_neighbours, true, false},
+#endif
+#if HXS_IN(2)
     {"k.doc", u_keyDoc, false, false},
     {"k.obj", u_keyObj, false, false},              {"k.var", u_keyVar, false, false},
     {"k.objSet", u_keyObjSet, false, false},        {"k.docDoc", u_keyDocDoc, false, false},
@@ -835,11 +839,13 @@ static const UseDef kUses[] = {
     {"k.docAdd", u_keyDocAdd, false, false},        {"k.existingCopied", u_keyExistingCopied, true, false},
     {"k.existingLinked", u_keyExistingLinked, true, true},
 #endif
-#if HXS_IN(2)
+#if HXS_IN(3)
     {"l.doc", u_lkDoc, false, false},               {"l.constDoc", u_lkConstDoc, false, false},
     {"l.obj", u_lkObj, false, false},               {"l.constObj", u_lkConstObj, false, false},
     {"l.var", u_lkVar, false, false},               {"l.constVar", u_lkConstVar, false, false},
     {"l.isInt", u_lkIsInt, false, false},           {"l.docIsInt", u_lkDocIsInt, false, false},
+#endif
+#if HXS_IN(4)
     {"l.docContains", u_lkDocContains, false, false},
     {"l.objContains", u_lkObjContains, false, false},
     {"l.constObjContains", u_lkConstObjContains, false, false},
@@ -848,8 +854,10 @@ static const UseDef kUses[] = {
     {"l.docRemove", u_lkDocRemove, false, false},   {"l.objRemove", u_lkObjRemove, false, false},
     {"l.varRemove", u_lkVarRemove, false, false},
 #endif
-#if HXS_IN(3)
+#if HXS_IN(5)
     {"c.operand", u_compare, false, false},
+#endif
+#if HXS_IN(6)
     {"d.copyCtor", u_copyCtor, true, false},        {"d.copyAssign", u_copyAssign, true, false},
     {"d.docSetDoc", u_copyDocSet, true, false},     {"d.moveAssign", u_copyMove, true, false},
     {"d.memberwise", u_copyMembers, true, false},   {"d.within", u_copyWithin, false, false},
@@ -960,7 +968,7 @@ static const Kind kSizedKinds[] = {StdString, StringView, JsCopied, ArdString};
 
 inline Kind roleKind(Role r, int user, int rot, bool hasNul) {
   if (r == RAW) return StdString;
-  if (r == VL || r == KL) return kLinkedKinds[size_t(rot + user) % 4];
+  if (r == VL || r == KL) return kLinkedKinds[size_t(rot + user) % 5];
   if (hasNul) return kSizedKinds[size_t(rot + user) % 4];
   return kCopiedKinds[size_t(rot + user) % 7];
 }
@@ -1190,20 +1198,20 @@ inline void run(Ctx& C) {
       }
     }
   }
-#if HXS_IN(3)
+#if HXS_IN(6)
   if (phase.find('B') != std::string::npos) {
     std::vector<int> rots;
-    if (T) for (int r = 0; r < 28; r++) rots.push_back(r);
+    if (T) for (int r = 0; r < 35; r++) rots.push_back(r);
     else rots = {0, 3};
     phaseB(C, strings, T ? 3 : 2, rots);
   }
 #endif
   C.bound(std::string("strings {empty,a,ab,a\\0b,\\x80\\xff,42,-7.5,1e3,3.25,12345678901234567890,' 1',true,31 bytes,32 bytes") +
           (T ? ",65535 bytes,65536 bytes (refusal only)}" : "}") +
-          " x 11 source kinds {literal,const char*,char*,char[N],std::string,string_view,JsonString Copied,JsonString(p,Linked),"
-          "JsonString(p),Arduino String,flash} x 47 uses over three jobs (14 value, 10 key, 16 lookup x 4 populations, "
+          " x 12 source kinds {literal,const char*,char*,char[N],std::string,string_view,JsonString Copied,JsonString(p,Linked),"
+          "JsonString(p),JsonString(p,strlen),Arduino String,flash} x 47 uses over six jobs (14 value, 10 key, 16 lookup x 4 populations, "
           "12 comparison operators x 2 sides on JsonVariantConst and MemberProxy (4 on JsonVariant, null, integer and unbound operands) x operand set, 6 copy paths) x {plain, source overwritten, source destroyed}; "
-          "sharing grid: " + (T ? "2..3" : "2") + " users x 5 roles x 9 mutations x " + (T ? "28 kind rotations (7 for the 65535-byte string)" : "2 kind rotations"));
+          "sharing grid: " + (T ? "2..3" : "2") + " users x 5 roles x 9 mutations x " + (T ? "35 kind rotations (7 for the 65535-byte string)" : "2 kind rotations"));
 }
 
 }  // namespace hx_strings
